@@ -35,7 +35,7 @@ var axisSpecs = map[string]axisSpec{
 
 func init() {
 	register("C01", checkC01)
-	notDecided["C01"] = "the selected node sets for every tree shape and context node; the principal node type of `*` on the attribute/namespace/self axes; name tests on the namespace axis (excluded by the property)."
+	notDecided["C01"] = "the selected node sets for every tree shape and context node (the rules decide the selector, direction, accessor discipline, root handling and principal node type of every axis, not the sets); name tests on the namespace axis (excluded by the property)."
 }
 
 func checkC01(w *World) {
